@@ -28,7 +28,7 @@ RULE = (
     "evaluations counts scenario executions"
 )
 ASSUMPTIONS = ["reproducibility across machines / library versions cannot be varied here"]
-OPS = ops.PLAIN_OPS + ops.SKIP_OPS + ops.ATTR_OPS + ops.STRUCT_OPS + ops.AUX_OPS + ("control", "control", "block", "build", "seeds")
+OPS = ops.PLAIN_OPS + ops.SKIP_OPS + ops.ATTR_OPS + ops.STRUCT_OPS + ops.AUX_OPS + ("control", "control", "control", "block", "build", "seeds", "setcfg")
 NAME_POOL = ["a", "B", "c1", "x_2", "Zed", "m", "k9", "q", "Ab", "aa", "y", "w0"]
 
 
@@ -52,11 +52,22 @@ def _scenario(draw, max_n):
             ),
         )
     )
+    steps = draw(ops.steps(OPS, n, 1, 6))
+    if any(s["op"] == "control" for s in steps):
+        # half of the control calls aim at a minimal trap space (so that successions and driver sets exist)
+        from ..oracle import Net
+
+        mts = Net.from_json(nj).min_traps()
+        for s in steps:
+            if s["op"] == "control" and draw(st.booleans()):
+                t = list(mts[draw(st.integers(0, len(mts) - 1))])
+                if any(v is not None for v in t):
+                    s["target_sp"] = t
     return {
         "net": {"names": names, "regs": nj["regs"], "tables": nj["tables"]},
         "config": cfg,
         "via": "api",
-        "steps": draw(ops.steps(OPS, n, 1, 6)),
+        "steps": steps,
     }
 
 
